@@ -197,6 +197,7 @@ typedef struct rcfg_t {
   int sref; /* take and keep a session reference in the handler */
   int dyn;  /* unknown-resource handler: create the resource on PUT */
   int maxage;
+  int rtype; /* >=0: set this message type on the response */
   coap_resource_t *res;
 } rcfg_t;
 
@@ -433,6 +434,7 @@ new_rcfg(int node, const char *path) {
   rc->code = -1;
   rc->sep_ms = -1;
   rc->maxage = -1;
+  rc->rtype = -1;
   if (nd->nrc < MAX_RES)
     nd->rc[nd->nrc++] = rc;
   return rc;
@@ -529,6 +531,8 @@ hnd_generic(coap_resource_t *resource, coap_session_t *session, const coap_pdu_t
   if (code == 0)
     return;
   coap_pdu_set_code(response, (coap_pdu_code_t)code);
+  if (rc->rtype >= 0)
+    coap_pdu_set_type(response, (coap_pdu_type_t)rc->rtype);
   for (i = 0; i < rc->nropts; i++)
     coap_add_option(response, rc->ropts[i].num, rc->ropts[i].len, rc->ropts[i].v);
   if (nd->reenter) {
@@ -883,6 +887,7 @@ fill_rcfg(rcfg_t *rc) {
   rc->store = (int)kvi("store", 0);
   rc->sref = (int)kvi("sref", 0);
   rc->maxage = (int)kvi("maxage", -1);
+  rc->rtype = (int)kvi("rtype", -1);
   if ((v = kv("ropts", NULL)) && strcmp(v, "-")) {
     char *dup = strdup(v), *save = NULL, *it;
     for (it = strtok_r(dup, ",", &save); it && rc->nropts < 8; it = strtok_r(NULL, ",", &save)) {
